@@ -204,6 +204,9 @@ fn c10_cases() -> Vec<(Box<dyn Subject>, generic::StreamCase)> {
         (Box::new(subjects::Btor2) as Box<dyn Subject>, generic::StreamCase { label: "btor2-blank-line-run".into(), prefix: vec![], period: b"\n".to_vec(), suffix: b"1 sort bitvec 1\n".to_vec(), max_item: 16 }),
         (Box::new(subjects::Btor2) as Box<dyn Subject>, generic::StreamCase { label: "btor2-indented-blank-run".into(), prefix: b"1 sort bitvec 1\n".to_vec(), period: b"  \n \n".to_vec(), suffix: b"; end".to_vec(), max_item: 16 }),
         (Box::new(subjects::Btor2) as Box<dyn Subject>, generic::StreamCase { label: "btor2-comment-run".into(), prefix: vec![], period: b"; a comment line\n\n  \n".to_vec(), suffix: b"1 sort bitvec 1\n".to_vec(), max_item: 20 }),
+        // ids, sorts and names that never repeat: nothing may be remembered per line
+        (Box::new(subjects::Btor2) as Box<dyn Subject>, generic::StreamCase { label: "btor2-distinct-sorts".into(), prefix: vec![], period: b"######## sort bitvec 8\n".to_vec(), suffix: vec![], max_item: 24 }),
+        (Box::new(subjects::Btor2) as Box<dyn Subject>, generic::StreamCase { label: "btor2-distinct-nodes".into(), prefix: b"1 sort bitvec 8\n2 sort array 1 1\n".to_vec(), period: b"######## input 1 n######## ; c########\n######## sort array 1 1\n".to_vec(), suffix: vec![], max_item: 48 }),
         (
         Box::new(subjects::Btor2) as Box<dyn Subject>,
         generic::StreamCase { label: "btor2".into(), prefix: b"1 sort bitvec 8\n".to_vec(), period: b"2 input 1 name ; comment\n3 add 1 2 2\n; a comment line\n4 constd 1 123\n5 justice 3 2 3 4\n".to_vec(), suffix: vec![], max_item: 26 },
